@@ -68,6 +68,7 @@ class Engine:
             self.pc, self.light = [], []
             self.dec, self.pos = list(prefix), 0
             self.fresh_n = 0
+            self.run_n = 0              # per-path counter of per-program runs (unique value names, see genc._vname)
             self.side_counter = {}
             self.paths += 1
             if self.paths > self.max_paths:
